@@ -50,9 +50,12 @@ namespace pf
 #endif
 
     // ---- capture of the characters handed to the output callback
+#ifndef PF_CAPN
+#define PF_CAPN 8192 // stored characters per call (more are counted, not stored)
+#endif
     enum
     {
-        CAPN = 8192
+        CAPN = PF_CAPN
     };
     struct Cap
     {
